@@ -75,15 +75,23 @@ def run_history(connect, hist, log, st=None):
                 cur.execute(f"insert into {kname(o[1])} values ({o[2]})")
             elif k == 6:
                 n6 += 1
-                if n6 % 2:
+                if n6 % 3 != 0:
                     # the way connector programs do it: one long-lived cursor for the statements, the connection's commit()/rollback() to end
-                    lcur.execute("begin")
-                    for v in o[2]:
-                        lcur.execute(f"insert into {kname(o[1])} values ({v})")
-                    if o[3]:
-                        conn.commit()
-                    elif j < len(hist) - 1:
+                    if n6 % 3 == 2 and not o[3] and j < len(hist) - 1:
+                        # ... inside `with conn:` - leaving the block neither commits nor rolls back, the transaction is still the program's to end
+                        with conn:
+                            lcur.execute("begin")
+                            for v in o[2]:
+                                lcur.execute(f"insert into {kname(o[1])} values ({v})")
                         conn.rollback()
+                    else:
+                        lcur.execute("begin")
+                        for v in o[2]:
+                            lcur.execute(f"insert into {kname(o[1])} values ({v})")
+                        if o[3]:
+                            conn.commit()
+                        elif j < len(hist) - 1:
+                            conn.rollback()
                 else:
                     cur.execute("begin")
                     for v in o[2]:
